@@ -29,6 +29,7 @@ from harness import psbt_common as PC
 
 PROPERTY = "C10"
 DRIVERS = ["drv_c10"]
+PROPS_MODULES = ["Buidl.Props.C10", "Buidl.Props.C10Tx"]
 ANCHORS = [
     ("buidl/psbt.py", "PSBT.parse"), ("buidl/psbt.py", "PSBTIn.parse"), ("buidl/psbt.py", "PSBTOut.parse"),
     ("buidl/psbt.py", "PSBT.serialize"), ("buidl/psbt.py", "PSBTIn.serialize"), ("buidl/psbt.py", "PSBTOut.serialize"),
@@ -78,6 +79,11 @@ CLAUSES = {
         "proved relative to the signature check (validate_rejects_bad_sig: sigOK false => PSBT.validate / parse refuse); "
         "sigOK is the real check_sig_* (C01/C05); observation O10b (no UTXO: kept) excluded by hypothesis",
     "create / update / sign (which inputs a signer signs)": "correspondence-only",
+    "the PSBT object stays usable after every step incl. extraction; the embedded transaction keeps its txid, legacy format and "
+    "empty scriptSigs; objects handed to the API are not modified":
+        "correspondence-only: the model is a value semantics (a function never changes its argument), so aliasing between the "
+        "extracted transaction and the PSBT cannot be expressed in it; checked on the real objects by the predicates "
+        "same_object_workflow and api_inputs_unchanged (one object through create, update, sign, combine, finalize, final_tx twice)",
 }
 TRUSTED = [
     "transaction codec abstract in the theorems (TxCodec laws as hypotheses); the driver instantiates it with "
